@@ -144,6 +144,8 @@ RATE_OPS = [
     rating_op("none"),
     rating_op("NONE", "user"),
     rating_op("SVR (linear kernel)", "user"),
+    rating_op("SVR (linear kernel)", "user", None, False),
+    rating_op("SVR (linear kernel)", "user", None, True),
     rating_op("Extra Trees", "user"),
 ]
 
@@ -205,7 +207,7 @@ class Recorded(Driver):
                            ["F", {"range_x": [-4e-9, 4e-9]}],
                            ["F", {"range_type": "relative cp",
                                   "range_x": [-1e-10, 1e-10]}]] \
-        + RATE_OPS[:6]
+        + RATE_OPS[:6] + RATE_OPS[7:10]
 
     def fresh(self):
         from nanite import IndentationGroup
@@ -239,7 +241,7 @@ def sweep_menu(tier):
     from nanite.rate.regressors import reg_names
     regs = list(reg_names) + ["none", "NONE"]
     if tier == "quick":
-        names_l, lda_l = [None, NAMES_A], [None, True]
+        names_l, lda_l = [None, NAMES_A], [None, False, True]
     else:
         names_l, lda_l = [None, NAMES_A, NAMES_B], [None, True, False]
     menu = []
